@@ -173,8 +173,8 @@ def table_diff():
 # sequential histories. ops are JSON lists.
 
 OPS = ["new", "new_nested", "with_item", "with_items", "with_mods", "update_item", "deepcopy", "deepcopy_nested", "reset", "reset_items", "with_bad", "with_table", "transform_item",
-       "with_uncopyable", "new_uncopyable", "decl_attr_default", "decl_field_default"]
-MUST_SUCCEED = {"decl_attr_default", "decl_field_default"}
+       "with_uncopyable", "new_uncopyable", "decl_attr_default", "decl_field_default", "plain_sub_default"]
+MUST_SUCCEED = {"decl_attr_default", "decl_field_default", "plain_sub_default"}
 
 
 class Uncopyable:
@@ -268,6 +268,19 @@ def apply(cur, op):
         return cur.reset_items()
     if name == "with_bad":
         return cur.with_n("not an int")
+    if name == "plain_sub_default":
+        # an UNDECORATED subclass re-defaults an inherited attribute with a module-bearing value: constructing it, resetting the
+        # attribute and evolving the instance all copy that class-level default
+        if "OutSub" not in _ENV:
+            _ENV["OutSub"] = type("OutSub", (Out,), {"mods": [math, {"k": [sys]}], "__module__": "vf.generated"})
+        Sub = _ENV["OutSub"]
+        s1 = Sub(item=make_in(op[1]))
+        s2 = s1.with_mods([sys]).reset_mods()
+        s3 = s1.with_n(op[1])
+        for x in (s1, s2, s3):
+            if x.mods != [math, {"k": [sys]}] or x.mods is Sub.mods:
+                raise AssertionError(f"default of the undecorated subclass not copied correctly: {x.mods!r}")
+        return cur
     if name in MUST_SUCCEED:
         # a class whose mutable default (declared through Attr / dataclasses.field) holds modules: declaring it, bootstrapping
         # it and constructing an instance all copy that default
